@@ -127,7 +127,7 @@ Definition judge_hist (d : disc) (ls : list (list Z)) (steps : list (list (list 
     end.
 
 (* clean runs: the implementation's ENCODER output is read by the grammar and judged:
-   numbered 0..T-1 per id, payload <= 170 bytes, header on line 0; then the deliveries must be
+   numbered 0..T-1 per id, payload <= 170 bytes, header on line 0, payloads concatenating to the data; then the deliveries must be
    exactly one image per id at the last line of its run, equal to what was sent. *)
 Fixpoint positions_of_gfx (h : list line) (pos : Z) : list Z :=
   match h with
@@ -146,7 +146,6 @@ Fixpoint run_ok (g : gfx) (id : Z) (per : Z) (k : Z) (cs : list chunk) (data : l
   | [] => is_nil data
   | c :: r =>
     (c_type c =? g_type g) && ids_eqb (c_ids c) [id] && (c_index c =? k) && (zlen (c_data c) <=? 170)
-    && (1 <=? zlen (c_data c))
     && (if k =? 0
         then match c_hdr c with
              | Some (n, w, h, off) =>
